@@ -166,6 +166,25 @@ def trace_values(kind, pos, mom, direction, it):
     raise ValueError(kind)
 
 
+class NullDisplay:
+    """Display object for progress bars that shows nothing (keeps check output clean)."""
+
+    def update(self, obj):
+        pass
+
+
+def make_quiet_bar():
+    from mici.progressbars import SequenceProgressBar
+
+    class QuietBar(SequenceProgressBar):
+        """A user-supplied progress bar class (public `progress_bar_class` option) that displays nowhere."""
+
+        def __init__(self, sequence, description=None, position=(0, 1)):
+            super().__init__(sequence, description, position, displays=[NullDisplay()])
+
+    return QuietBar
+
+
 class FaultyDensity:
     """neg_log_dens / gradient wrapper raising KeyboardInterrupt at its k-th call made inside an iteration
     (calls made while adapters initialise or arrays are allocated are outside the property and not counted)."""
@@ -216,6 +235,7 @@ def config(draw, max_chain=4, max_warm=12, max_main=8, adapters=True, parallel=T
         "p": [draw(vec(n, -1.0, 1.0)) for _ in range(n_chain)],
         "n_step": draw(st.integers(1, 3)),
         "depth": draw(st.integers(1, 3)),
+        "progress": draw(st.sampled_from(["off", "off", "off", "custom-class", "monitor"])),
     }
     if cfg["adapters"] in ("step+var", "step+covar") and cfg["stager"] == "warmup":
         cfg["stager"] = "default"
@@ -347,6 +367,15 @@ def run(cfg, b, memdir=None, timeout=120, n_process="cfg"):
     """Call sample_chains under a watchdog. Returns (outputs, exception)."""
     kw = {"display_progress": False, "n_process": cfg["n_process"] if n_process == "cfg" else n_process,
           "trace_warm_up": cfg["trace_warm_up"], "stager": b.stager}
+    prog = cfg.get("progress", "off")
+    if prog == "custom-class":
+        import contextlib
+        import io
+
+        kw["display_progress"] = True
+        kw["progress_bar_class"] = make_quiet_bar()
+    elif prog == "monitor":
+        kw["monitor_stats"] = ["accept_stat", "n_step"] if b.hmc else {b.int_key: ["accept_stat", "n_step"]}
     if cfg["storage"] != "memory":
         kw["force_memmap"] = True
     if cfg["storage"] == "memmap_dir":
@@ -365,6 +394,10 @@ def run(cfg, b, memdir=None, timeout=120, n_process="cfg"):
     old = signal.signal(signal.SIGALRM, _alarm)
     signal.alarm(timeout)
     try:
+        if prog == "custom-class":
+            # the stage-level bar still writes to stdout: swallow it
+            with contextlib.redirect_stdout(io.StringIO()):
+                return b.sampler.sample_chains(cfg["n_warm"], cfg["n_main"], b.inits, **kw), None
         return b.sampler.sample_chains(cfg["n_warm"], cfg["n_main"], b.inits, **kw), None
     except Watchdog as e:
         raise HarnessError("watchdog: sample_chains did not return within the time limit (inconclusive)") from e
